@@ -15,13 +15,19 @@ func (c *ctx) drawString() string {
 	n := c.g.Range(0, 6)
 	b := make([]byte, 0, n)
 	for i := 0; i < n; i++ {
-		switch c.g.Pick(3, 2, 1) {
+		switch c.g.Pick(6, 4, 2, 1, 1) {
 		case 0:
 			b = append(b, specials[c.g.Intn(len(specials))])
 		case 1:
 			b = append(b, byte('a'+c.g.Intn(6)))
-		default:
+		case 2:
 			b = append(b, " \t,;=[]-%/n"[c.g.Intn(11)])
+		case 3:
+			// a byte that is not valid UTF-8 on its own (Go strings are byte strings)
+			b = append(b, []byte{0xff, 0xfe, 0xe9, 0x80, 0xc0}[c.g.Intn(5)])
+			c.probe("dot_string_contains_non_utf8_byte")
+		default:
+			b = append(b, "é✓"[0:]...)
 		}
 	}
 	s := string(b)
@@ -270,9 +276,14 @@ func (c *ctx) dot() {
 		} else if k == nwrites-1 {
 			where = "closing brace"
 		}
+		w := &simenv.SimWriter{FailAt: k, Short: short}
+		if c.f.Chance(1, 3) {
+			// transient fault: only write #k fails, later writes would succeed
+			w.Transient = true
+			kind = "writer_transient_error"
+		}
 		c.fault(kind, fmt.Sprintf("write #%d of %d (%s), %d of %d bytes accepted", k, nwrites, where, short, w0.Lens[k]))
 		c.probe("writer_fault_in_" + where)
-		w := &simenv.SimWriter{FailAt: k, Short: short}
 		var err error
 		sig := fmt.Sprintf("%s@%s", kind, where)
 		if pv := c.try(func() { err = mk().Fprint(w, sg()) }); pv != nil {
